@@ -76,3 +76,14 @@ package objecttemplate
 //@   sink Writer.Update#1 requires [C18] forall k string :: renderedLblHas()[k] ==> lblHas(arg1)[k] && lbl(arg1)[k] == renderedLbl()[k]
 //@   sink Writer.Update#1 requires [C18] forall k string :: renderedAnnHas()[k] ==> annHas(arg1)[k] && ann(arg1)[k] == renderedAnn()[k]
 //@   ensures [C18] sourcesOK() && missingOpt() > old(missingOpt()) ==> res.RequeueAfter == old(r.optionalResourceRetryInterval)
+
+//@ props C18
+// What a pass found (Invalid set or cleared, controllerOf) is reported: every pass over a live ObjectTemplate that
+// ends without error has sent the status update - also when the template reconciler only asks to come back later
+// (missing required or optional source).
+//@ func package-operator.run/internal/controllers/objecttemplate.(*GenericObjectTemplateController).Reconcile
+//@   after EnsureCachedFinalizer#1 ghost tplLive() := result == nil
+//@   at SubResourceWriter.Update ghost statusSent() := true
+//@   sink SubResourceWriter.Update requires [C18] tplLive()
+//@   loop 1 invariant tplLive() == loopentry(tplLive()) && statusSent() == old(statusSent())
+//@   ensures [C18] result1 == nil && tplLive() && !old(tplLive()) && !old(statusSent()) ==> statusSent()
